@@ -7,6 +7,7 @@ reports the function as unanalysable (fail closed). Because the analysed code to
 through comparisons, the result for one representative of each order class is the result for every
 member of the class, so enumerating the classes yields the complete decision table of the function.
 """
+import re
 from .tast import strip
 
 
@@ -367,6 +368,11 @@ class Interp:
             f = self.C.fn(n.get("def") or "")
             if f is not None and dk.startswith(("Const", "AssocConst", "Static")):
                 return self.ev(f["body"], {})
+            m = re.match(r"core::num::<impl (\w+)>::(MAX|MIN|BITS)$", n.get("def") or "")
+            if m and m.group(1) in self.INT_BITS:
+                bits, signed = self.INT_BITS[m.group(1)]
+                return bits if m.group(2) == "BITS" else \
+                    ((1 << (bits - 1)) - 1 if signed else (1 << bits) - 1) if m.group(2) == "MAX" else (-(1 << (bits - 1)) if signed else 0)
             raise Unsupported("path %s" % (n.get("def"),))
         if k == "ctor":
             if n.get("adt") == "alloc::borrow::Cow" and len(n["args"]) == 1:
